@@ -29,6 +29,7 @@ OBLIGATIONS = krow_reader_obligations() + [
     _o("kget_cells_small_rows", 125, "row-runs in 1..2, plain cells, area corners <= 4"),
     _o("kget_column_small", 56, "repeats in 1..2, x <= 4"),
     _o("kget_columns_range_small", 20, "cell-runs in 1..2, column range corners <= 5"),
+    _o("kget_empty_table", 5, "table without rows / row without cells, positions in -3..3 (negative forms included)"),
     _o("kget_rows_small_live", 5, "companion of known finding C08-traverse-live-row", expect="finding", finding="C08-traverse-live-row"),
 ]
 
@@ -42,3 +43,8 @@ for _fn in ['arow_get_clone']:
                            encodes=["src/odfdo/row.py:Row (all methods used, incl. repeated accessors)", "src/odfdo/cell.py:Cell.__init__,repeated,_set_repeated,clone,get_value,set_value",
                                     "src/odfdo/element.py:Element.insert,delete,index,clone,_get_element_idx2,elements_repeated_sequence", "src/odfdo/element_cached.py (all)"],
                            stubs=["/verif/shadow/lxml (symdom)"]))
+
+# thorough tier: the same reader obligations with repeats up to 3 and positions up to 6 (VERIF_DEPTH=1)
+from props.common import kget_obligations as _kg  # noqa: E402
+
+OBLIGATIONS += [o for o in _kg(['kget_rows_small', 'kget_cells_small_cols', 'kget_cells_small_rows', 'kget_column_small', 'kget_columns_range_small']) if o.name.endswith("@d1")]
